@@ -1509,6 +1509,22 @@ Lemma orig_idnul_refuted :
             abs_conn c = Ok (1, 2, [97], [], []).
 Proof. eexists. split; vm_compute; reflexivity. Qed.
 
+Lemma orig_refuted :
+  restore_v orig_variant fresh_conn ex_blob30 = OOB /\
+  (exists c, restore_v orig_variant fresh_conn (encode ex_st) = Ok (0, c) /\
+             dllb (c_heap c) None (sq_head c) [0; 1]%nat = None /\
+             fst (run [OpDrop Q_YOUNGEST] c) <> fst (run [OpDrop Q_YOUNGEST] (canon ex_st))) /\
+  (exists c, restore_v orig_variant fresh_conn (firstn 38 (encode ex_st)) = Ok (EINVOP, c) /\
+             c_sm c = SmDangling /\ sq_head c <> None /\ sq_len c = 2 /\ release c = UAF /\
+             fst (run [OpConnect; OpSend [97]] c) = [ObNone]) /\
+  (exists c, restore_v orig_variant fresh_conn (encode ex_st ++ [0]) = Ok (0, c)) /\
+  (exists c, restore_v orig_variant fresh_conn (encode (mkA 1 2 [97; 0; 98] [] [])) = Ok (0, c) /\
+             abs_conn c = Ok (1, 2, [97], [], [])).
+Proof.
+  exact (conj orig_tag_overread_refuted (conj orig_missing_prev_refuted (conj orig_err_path_refuted
+          (conj orig_trailing_refuted orig_idnul_refuted)))).
+Qed.
+
 (* the hypotheses of the theorems are satisfiable, and the fixed model on the same witnesses *)
 Example wf_st_ex : wf_st ex_st.
 Proof.
